@@ -3,6 +3,7 @@ package e2e
 import (
 	"bufio"
 	"crypto/sha1"
+	"crypto/tls"
 	"encoding/base64"
 	"encoding/binary"
 	"fmt"
@@ -129,7 +130,27 @@ func (s *FakeServer) serveTunnel(nc net.Conn, br *bufio.Reader) {
 			return
 		}
 		defer get.nc.Close()
-		s.rtspLoop(conn.NewConn(bufio.NewReader(&b64Groups{r: br}), io.Discard), nc, get.write)
+		write := get.write
+		if rr := s.matching("TUNNEL-RST"); len(rr) > 0 {
+			// the channel that carries the server's bytes is reset (RST, not FIN) after so many responses, the other one is
+			// left alone: the client has to notice and give up both
+			after, n := rr[0].N, 0
+			write = func(b []byte) error {
+				err := get.write(b)
+				if n++; n > after {
+					c := get.nc
+					if tc, ok := c.(*tls.Conn); ok {
+						c = tc.NetConn()
+					}
+					if t, ok := c.(*net.TCPConn); ok {
+						t.SetLinger(0) //nolint:errcheck
+					}
+					c.Close()
+				}
+				return err
+			}
+		}
+		s.rtspLoop(conn.NewConn(bufio.NewReader(&b64Groups{r: br}), io.Discard), nc, write)
 	}
 }
 
